@@ -98,12 +98,15 @@ Fixpoint replace_id (v : pv) : jv :=
   | PSeq l => JArr (map replace_id l)
   end.
 
-Inductive istate := Empty | InProgress | Evaluated | Failed.
+(* Loaded: an individual rebuilt by Individual.from_dict (a store re-opened in write mode on an existing
+   file): its `state` attribute is the *string* of the row, not a State member *)
+Inductive istate := Empty | InProgress | Evaluated | Failed | Loaded.
 
-(* Individual.to_string *)
-Definition state_string (s : istate) : string :=
+(* Individual.to_string: compares with the four State members and falls through (returns None) otherwise *)
+Definition state_json (s : istate) : jv :=
   match s with
-  | Empty => "empty" | InProgress => "in_progress" | Evaluated => "evaluated" | Failed => "failed"
+  | Empty => JStr "empty" | InProgress => JStr "in_progress" | Evaluated => JStr "evaluated" | Failed => JStr "failed"
+  | Loaded => JNull
   end.
 
 Record individual := {
@@ -129,7 +132,7 @@ Definition to_dict (x : individual) : jv :=
         ("vector", JArr (i_vector x));
         ("costs", JArr (i_costs x));
         ("costs_signed", i_costs_signed x);
-        ("state", JStr (state_string (i_state x)));
+        ("state", state_json (i_state x));
         ("population_id", i_population_id x);
         ("algorithm_id", i_algorithm_id x);
         ("custom", i_custom x);
@@ -165,9 +168,42 @@ Definition from_dict (d : jv) : option view_ind :=
 (* the view of an individual the property promises *)
 Definition view_of (x : individual) : view_ind :=
   {| v_id := JNum (NInt (i_id x)); v_vector := JArr (i_vector x); v_costs := JArr (i_costs x);
-     v_state := JStr (state_string (i_state x)); v_costs_signed := i_costs_signed x;
+     v_state := state_json (i_state x); v_costs_signed := i_costs_signed x;
      v_population_id := i_population_id x; v_algorithm_id := i_algorithm_id x;
      v_custom := i_custom x; v_features := JObj (replace_features (i_features x)) |}.
+
+(* What read_from_datastore puts into problem.individuals when a store is opened in write mode on an
+   existing file: Individual.from_dict of every row.  The values are plain JSON (individuals were
+   replaced by ids when the row was written); parents / children are not restored. *)
+Fixpoint pv_of_jv (j : jv) : pv :=
+  match j with
+  | JNull => PNull
+  | JBool b => PBool b
+  | JNum n => PNum n
+  | JArr l => PSeq (map pv_of_jv l)
+  | JStr _ => PNull          (* not reachable from rows the model writes: a string / object feature value *)
+  | JObj _ => PNull          (* cannot be written in the first place (see pv) *)
+  end.
+
+Definition arr_items (j : jv) : list jv := match j with JArr l => l | _ => [] end.
+
+Definition loaded_of_row (id : Z) (row : jv) : individual :=
+  match from_dict row with
+  | Some v =>
+      {| i_id := match v_id v with JNum (NInt z) => z | _ => id end;      (* individual.id = dictionary['id'] *)
+         i_vector := arr_items (v_vector v); i_costs := arr_items (v_costs v);
+         i_costs_signed := v_costs_signed v; i_state := Loaded; i_population_id := v_population_id v;
+         i_algorithm_id := v_algorithm_id v; i_custom := v_custom v;
+         i_features := match v_features v with
+                       | JObj kv => map (fun p => (fst p, pv_of_jv (snd p))) kv
+                       | _ => []
+                       end;
+         i_parents := []; i_children := [] |}
+  | None =>
+      {| i_id := id; i_vector := []; i_costs := []; i_costs_signed := JNull; i_state := Loaded;
+         i_population_id := JNull; i_algorithm_id := JNull; i_custom := JNull; i_features := [];
+         i_parents := []; i_children := [] |}
+  end.
 
 (* ------------------------------------------------------------------------- *)
 (* The individuals table and its upsert (datastore.py)                         *)
@@ -262,142 +298,3 @@ Definition read_meta (t : tables) : option problem_meta :=
 
 Definition with_individuals (t : tables) (st : store) : tables :=
   {| t_main := t_main t; t_parameters := t_parameters t; t_costs := t_costs t; t_individuals := st |}.
-
-(* ------------------------------------------------------------------------- *)
-(* Commit protocol and crash points (C11)                                      *)
-(* ------------------------------------------------------------------------- *)
-(* The objective and the signed-cost computation are inputs of the model. *)
-Section Crash.
-  Variable objective : list jv -> list jv.        (* problem.evaluate on a vector *)
-  Variable signed : list jv -> list jv -> jv.     (* calc_signed_costs: vector (feasibility), costs *)
-
-  (* One step = one effect of Job.evaluate / sync_individual / sync_all that a process
-     death can separate from the next one.  c names a connection (one per sync call in
-     thread-safe mode), i an individual id. *)
-  Inductive step :=
-  | SStart (i : Z)                   (* state := IN_PROGRESS; the objective is entered *)
-  | SCosts (i : Z)                   (* individual.costs := objective(vector) *)
-  | SSigned (i : Z)                  (* calc_signed_costs *)
-  | SDone (i : Z)                    (* state := EVALUATED *)
-  | SFail (i : Z) (v : list jv)      (* objective raised: new random vector, state := EMPTY *)
-  | SExec (c i : Z)                  (* execute(upsert, [id, json.dumps(to_dict())]) on connection c *)
-  | SCommit (c : Z)                  (* conn.commit() *)
-  | SReturn (i : Z).                 (* the synchronisation of i has returned *)
-
-  Record cstate := {
-    c_mem : Z -> individual;               (* the Python objects *)
-    c_pend : Z -> list (Z * jv);           (* statements executed but not committed, per connection *)
-    c_db : store;                          (* the committed table: what a crash leaves behind *)
-    c_ret : list Z;                        (* ids whose synchronisation has returned *)
-    c_ph : Z -> nat }.                     (* ghost: progress of Job.evaluate on i (0 empty .. 4 evaluated) *)
-
-  Definition upd {A} (f : Z -> A) (k : Z) (v : A) : Z -> A := fun k' => if Z.eqb k' k then v else f k'.
-
-  Definition set_state (x : individual) (s : istate) : individual :=
-    {| i_id := i_id x; i_vector := i_vector x; i_costs := i_costs x; i_costs_signed := i_costs_signed x;
-       i_state := s; i_population_id := i_population_id x; i_algorithm_id := i_algorithm_id x;
-       i_custom := i_custom x; i_features := i_features x; i_parents := i_parents x; i_children := i_children x |}.
-  Definition set_costs (x : individual) (c : list jv) : individual :=
-    {| i_id := i_id x; i_vector := i_vector x; i_costs := c; i_costs_signed := i_costs_signed x;
-       i_state := i_state x; i_population_id := i_population_id x; i_algorithm_id := i_algorithm_id x;
-       i_custom := i_custom x; i_features := i_features x; i_parents := i_parents x; i_children := i_children x |}.
-  Definition set_signed (x : individual) (c : jv) : individual :=
-    {| i_id := i_id x; i_vector := i_vector x; i_costs := i_costs x; i_costs_signed := c;
-       i_state := i_state x; i_population_id := i_population_id x; i_algorithm_id := i_algorithm_id x;
-       i_custom := i_custom x; i_features := i_features x; i_parents := i_parents x; i_children := i_children x |}.
-  Definition set_vector (x : individual) (v : list jv) : individual :=
-    {| i_id := i_id x; i_vector := v; i_costs := i_costs x; i_costs_signed := i_costs_signed x;
-       i_state := i_state x; i_population_id := i_population_id x; i_algorithm_id := i_algorithm_id x;
-       i_custom := i_custom x; i_features := i_features x; i_parents := i_parents x; i_children := i_children x |}.
-
-  Definition apply_pending (p : list (Z * jv)) (db : store) : store :=
-    fold_left (fun d kr => upsert (fst kr) (snd kr) d) p db.
-
-  Definition do_step (st : cstate) (x : step) : cstate :=
-    match x with
-    | SStart i =>
-        {| c_mem := upd (c_mem st) i (set_state (c_mem st i) InProgress); c_pend := c_pend st;
-           c_db := c_db st; c_ret := c_ret st; c_ph := upd (c_ph st) i 1%nat |}
-    | SCosts i =>
-        {| c_mem := upd (c_mem st) i (set_costs (c_mem st i) (objective (i_vector (c_mem st i))));
-           c_pend := c_pend st; c_db := c_db st; c_ret := c_ret st; c_ph := upd (c_ph st) i 2%nat |}
-    | SSigned i =>
-        {| c_mem := upd (c_mem st) i
-                        (set_signed (c_mem st i) (signed (i_vector (c_mem st i)) (i_costs (c_mem st i))));
-           c_pend := c_pend st; c_db := c_db st; c_ret := c_ret st; c_ph := upd (c_ph st) i 3%nat |}
-    | SDone i =>
-        {| c_mem := upd (c_mem st) i (set_state (c_mem st i) Evaluated); c_pend := c_pend st;
-           c_db := c_db st; c_ret := c_ret st; c_ph := upd (c_ph st) i 4%nat |}
-    | SFail i v =>
-        {| c_mem := upd (c_mem st) i (set_state (set_vector (c_mem st i) v) Empty); c_pend := c_pend st;
-           c_db := c_db st; c_ret := c_ret st; c_ph := upd (c_ph st) i 0%nat |}
-    | SExec c i =>
-        {| c_mem := c_mem st; c_pend := upd (c_pend st) c (c_pend st c ++ [(i, to_dict (c_mem st i))]);
-           c_db := c_db st; c_ret := c_ret st; c_ph := c_ph st |}
-    | SCommit c =>
-        {| c_mem := c_mem st; c_pend := upd (c_pend st) c [];
-           c_db := apply_pending (c_pend st c) (c_db st); c_ret := c_ret st; c_ph := c_ph st |}
-    | SReturn i =>
-        {| c_mem := c_mem st; c_pend := c_pend st; c_db := c_db st; c_ret := i :: c_ret st; c_ph := c_ph st |}
-    end.
-
-  Definition run_steps (tr : list step) (st : cstate) : cstate := fold_left do_step tr st.
-
-  (* what a fresh process finds after the writer died: the committed table; statements
-     executed on connections that never committed are rolled back (assumption on SQLite) *)
-  Definition recovered (st : cstate) : store := c_db st.
-  (* rows whose commit may be in flight at an arbitrary instant *)
-  Definition in_flight (st : cstate) (conns : list Z) : list (Z * jv) := flat_map (c_pend st) conns.
-
-  (* the order Job.evaluate / the store impose on the steps (checked on observed traces,
-     proved for every interleaving of the per-design step lists) *)
-  Definition step_ok (st : cstate) (x : step) : bool :=
-    match x with
-    | SStart i => Nat.eqb (c_ph st i) 0
-    | SCosts i => Nat.eqb (c_ph st i) 1
-    | SSigned i => Nat.eqb (c_ph st i) 2
-    | SDone i => Nat.eqb (c_ph st i) 3
-    | SFail i _ => Nat.eqb (c_ph st i) 1
-    | SExec _ i => Nat.eqb (c_ph st i) 4
-    | SCommit _ => true
-    | SReturn i => existsb (Z.eqb i) (keys (c_db st))
-    end.
-
-  Fixpoint legal (st : cstate) (tr : list step) : bool :=
-    match tr with
-    | [] => true
-    | x :: tr' => step_ok st x && legal (do_step st x) tr'
-    end.
-
-  (* Job.evaluate on design i followed by sync_individual on its own connection (named i) *)
-  Definition job (i : Z) : list step :=
-    [SStart i; SCosts i; SSigned i; SDone i; SExec i i; SCommit i; SReturn i].
-  (* sync_all on connection c over the recorded individuals *)
-  Definition sync_all_steps (c : Z) (ids : list Z) : list step :=
-    map (SExec c) ids ++ [SCommit c] ++ map SReturn ids.
-
-  (* a fresh individual as Individual(vector) builds it (the fields the steps do not touch
-     are irrelevant here) *)
-  Definition fresh (i : Z) (v : list jv) : individual :=
-    {| i_id := i; i_vector := v; i_costs := []; i_costs_signed := JArr []; i_state := Empty;
-       i_population_id := JNum (NInt (-1)); i_algorithm_id := JNum (NInt 0); i_custom := JObj [];
-       i_features := []; i_parents := []; i_children := [] |}.
-
-  Fixpoint vector_of (designs : list (Z * list jv)) (i : Z) : list jv :=
-    match designs with
-    | [] => []
-    | (k, v) :: ds => if Z.eqb k i then v else vector_of ds i
-    end.
-
-  Definition init_state (designs : list (Z * list jv)) (db0 : store) : cstate :=
-    {| c_mem := fun i => fresh i (vector_of designs i); c_pend := fun _ => []; c_db := db0;
-       c_ret := []; c_ph := fun _ => 0%nat |}.
-End Crash.
-
-(* all interleavings of a family of step lists *)
-Inductive merge {A : Type} : list (list A) -> list A -> Prop :=
-| merge_done : forall ts, (forall t, In t ts -> t = []) -> merge ts []
-| merge_pick : forall ts1 x t ts2 tr,
-    merge (ts1 ++ t :: ts2) tr -> merge (ts1 ++ (x :: t) :: ts2) (x :: tr).
-
-Definition prefix {A : Type} (p l : list A) : Prop := exists s, l = p ++ s.
